@@ -41,7 +41,19 @@ RS = ("from chempy import Reaction, Equilibrium\nfrom chempy.kinetics.rates impo
       "from chempy.kinetics._rates import *\nfrom chempy.util._expr import create_Piecewise, create_Poly, Constant, Symbol\n"
       "from chempy.thermodynamics.expressions import MassActionEq, GibbsEqConst\n"
       "rxn1 = Reaction({'A': 1}, {'B': 1})\nrxn2 = Reaction({'A': 1, 'B': 1}, {'C': 1})\nrxn3 = Reaction({'A': 2, 'B': 1}, {'C': 1})\n"
-      "R0 = Const(8.314472)\nKH0 = Const(2.083664399411865234375e10)\n")
+      "R0 = Const(8.314472)\nKH0 = Const(2.083664399411865234375e10)\n"
+      # sequences on the same objects: (value, value after the caller updates its own variables, caller's mapping untouched by the call)
+      "def _twice(expr, v1, upd, **kw):\n"
+      "    d = dict(v1)\n"
+      "    r1 = expr(d, **kw)\n"
+      "    same = len(d) == len(v1) and all(d.get(k) is v for k, v in v1.items())\n"
+      "    d.update(upd)\n"
+      "    return r1, expr(d, **kw), (1 if same else 0)\n"
+      # (rate, rate after the documented `rxn.param = new` reassignment) of one substance
+      "def _reparam(rxn, p2, variables, key, **kw):\n"
+      "    r1 = rxn.rate(variables, **kw)[key]\n"
+      "    rxn.param = p2\n"
+      "    return r1, rxn.rate(variables, **kw)[key], rxn.rate_expr()(variables, reaction=rxn, **kw)\n")
 
 CASES = [
     dict(name="arrhenius_equation", targets=["chempy.kinetics.arrhenius.arrhenius_equation", "chempy.kinetics.arrhenius._get_R"], setup=RS,
@@ -114,6 +126,24 @@ CASES = [
          plain="(GibbsEqConst([dHR, dSR])({'temperature': T}, backend=be), MassActionEq([K]).equilibrium_equation({'A': cA, 'B': cB, 'C': cC}, "
                "equilibrium=Equilibrium({'A': 2, 'B': 1}, {'C': 3})), GibbsEqConst([dHR, dSR], unique_keys=('h', 's'))({'temperature': T, 's': K}, backend=be))",
          formula="(be.exp(dSR - dHR/T), K - cC**3/(cA**2*cB), be.exp(K - dHR/T))"),
+    # parameters that are themselves expressions (temperature programmes), evaluated twice from the caller's own mapping
+    dict(name="expr_valued_parameters", targets=["chempy.util._expr.Expr:all_params", "chempy.util._expr.Expr:arg"], setup=RS,
+         vars={"a0": ANY, "a1": ANY, "T0": TR, "dTdt": POS, "t": POS, "t2": POS, "dHR": ANY, "dSR": ANY, "A": POS, "EaR": ANY, "cA": POS},
+         plain="_twice(TPoly([a0, a1]), {'temperature': RampedTemp([T0, dTdt]), 'time': t}, {'time': t2}) + "
+               "_twice(GibbsEqConst([dHR, dSR]), {'temperature': RampedTemp([T0, dTdt]), 'time': t}, {'time': t2}, backend=be) + "
+               "_twice(MassAction(TPoly([A, EaR])), {'temperature': RampedTemp([T0, dTdt]), 'time': t, 'A': cA}, {'time': t2, 'A': 2*cA}, backend=be, reaction=rxn1) + "
+               "_twice(Log10TPoly([a0, a1]), {'log10_temperature': TPoly([T0, dTdt]), 'temperature': t}, {'temperature': t2})",
+         formula="(a0 + a1*(T0 + dTdt*t), a0 + a1*(T0 + dTdt*t2), 1, be.exp(dSR - dHR/(T0 + dTdt*t)), be.exp(dSR - dHR/(T0 + dTdt*t2)), 1, "
+                 "(A + EaR*(T0 + dTdt*t))*cA, (A + EaR*(T0 + dTdt*t2))*2*cA, 1, a0 + a1*(T0 + dTdt*t), a0 + a1*(T0 + dTdt*t2), 1)"),
+    # the rate of a reaction follows its `param` attribute (number, key, parameter set), also after it has been evaluated once
+    dict(name="param_reassignment", targets=["chempy.chemistry.Reaction:rate_expr", "chempy.chemistry.Reaction:rate"], setup=RS,
+         vars={"k1": POS, "k2": POS, "cA": POS, "A": POS, "Ea": ANY, "Ao": POS, "Eo": ANY, "T": TR},
+         plain="_reparam(Reaction({'A': 2}, {'B': 1}, k1), k2, {'A': cA}, 'B') + "
+               "_reparam(Reaction({'A': 2}, {'B': 1}, 'ka'), 'kb', {'A': cA, 'ka': k1, 'kb': k2}, 'A') + "
+               "_reparam(Reaction({'A': 2}, {'B': 1}, ArrheniusParam(A, Ea)), ArrheniusParam(Ao, Eo), {'A': cA, 'temperature': T}, 'B', backend=be) + "
+               "_reparam(Reaction({'A': 2}, {'B': 1}, MassAction(Arrhenius([A, Ea]))), MassAction(Arrhenius([Ao, Eo])), {'A': cA, 'temperature': T}, 'B', backend=be)",
+         formula="(k1*cA**2, k2*cA**2, k2*cA**2, -2*k1*cA**2, -2*k2*cA**2, k2*cA**2, A*be.exp(-Ea/(R0*T))*cA**2, Ao*be.exp(-Eo/(R0*T))*cA**2, "
+                 "Ao*be.exp(-Eo/(R0*T))*cA**2, A*be.exp(-Ea/T)*cA**2, Ao*be.exp(-Eo/T)*cA**2, Ao*be.exp(-Eo/T)*cA**2)"),
     dict(name="polynomials", targets=["chempy.util._expr.create_Poly"], setup=RS,
          vars={"a0": ANY, "a1": ANY, "a2": ANY, "a3": ANY, "T": TR, "Tref": TR, "lT": ANY},
          plain="(TPoly([a0, a1, a2, a3])({'temperature': T}), RTPoly([a0, a1, a2])({'temperature': T}), ShiftedTPoly([Tref, a0, a1, a2])({'temperature': T}), "
